@@ -100,7 +100,7 @@ func labelKey(a assignment) string { return a.get(sLabelKey, "k") }
 // entry name) and a library function; string labels on two samples and a
 // numeric "bytes" label with a unit on one.
 //
-//	s1: main -> f -> (g inlined h)     k=v  bytes=16<unit>
+//	s1: main -> f -> (g inlined h)     k=v z2=t  bytes=16<unit>
 //	s2: main -> f -> 0x1400 [binary]   k=w
 //	s3: main -> lib
 //
@@ -136,7 +136,7 @@ func baseProfile(a assignment) *ap.AP {
 	lib := ap.Loc{Addr: 0x8100, Map: 1, Lines: []ap.Line{{Func: "lib", Sys: "lib", File: "", Line: 0}}}
 	p.Stacks = []ap.Stack{
 		{Locs: []ap.Loc{main, f, gh}, Values: []int64{1, 10},
-			Labels:   map[string][]string{key: {val}},
+			Labels:   map[string][]string{key: {val}, "z2": {"t"}},
 			NumLabel: map[string][]int64{"bytes": {16}}, NumUnit: map[string][]string{"bytes": {unit}}},
 		{Locs: []ap.Loc{main, f, u}, Values: []int64{2, 20}, Labels: map[string][]string{key: {"w"}}},
 		{Locs: []ap.Loc{main, lib}, Values: []int64{3, 30}},
